@@ -557,7 +557,9 @@ class TypeModel:
             cs = ''.join(chars[k] for k in alphabet if self.accepts(i, k))
             return '[' + cs + ']' if cs else '[^\\x00-\\U0010ffff]'
         try:
-            rx = re.compile(expand_regex(self.term, leafclass))
+            src = expand_regex(self.term, leafclass)
+            if len(src) > 400: return None          # long expansions (nested counted groups) make `re` backtrack for minutes inside one C call
+            rx = re.compile(src)
         except (TooBig, re.error, RecursionError, OverflowError):
             return None
         return lambda keys: rx.fullmatch(''.join(chars[k] for k in keys)) is not None
